@@ -1,6 +1,6 @@
 (* C16 — property theorems (statements only; proofs live in Proofs*.v). *)
 From Coq Require Import ZArith QArith Qabs List Bool.
-Require Import QV.C16.Model QV.C16.Spec QV.C16.Proofs QV.C16.Proofs2 QV.C16.Proofs3 QV.C16.Proofs4 QV.C16.Proofs5 QV.C16.Proofs_term QV.C16.Proofs6 QV.C16.Proofs_fuel QV.C16.Proofs7.
+Require Import QV.C16.Model QV.C16.Spec QV.C16.Proofs QV.C16.Proofs2 QV.C16.Proofs3 QV.C16.Proofs4 QV.C16.Proofs5 QV.C16.Proofs_term QV.C16.Proofs6 QV.C16.Proofs_fuel QV.C16.Proofs7 QV.C16.Proofs8.
 Import ListNotations.
 Open Scope Z_scope.
 
@@ -154,22 +154,29 @@ Theorem C16_reject : forall c tbl p e, compile c tbl p = Err e -> forall o, comp
 Proof. exact reject_no_tables. Qed.
 Print Assumptions C16_reject.
 
-(* (6) "rejected with an error", not with a crash: for a program whose repetition counts are >= 1 and whose nodes
-   without waveform have children (`pos`), for every fuel, configuration and waveform table, the compiler model never
-   returns ECrash (the model's name for AttributeError / RuntimeError / IndexError of the real code): every sequence
-   table that reaches the parser consists of leaves carrying a waveform, split_one_child always finds a child to split
-   when _check_partial_unroll calls it, every recorded waveform index lies inside waveform_to_segment *)
-Theorem C16_no_crash : forall ff pf c tbl prog, pos prog = true -> compile_with ff pf c tbl prog <> Err ECrash.
-Proof. exact compile_no_crash. Qed.
+(* (6) "rejected with an error", not with a crash: for EVERY program of the input domain (`good`: repetition counts
+   >= 0 — zero counts included —, inner nodes carry no waveform), every fuel, configuration and waveform table, the
+   compiler model never returns ECrash (the model's name for a RuntimeError / IndexError of the real code):
+   split_one_child always finds a child to split when _check_partial_unroll calls it (the counts of the table add up to
+   at least min_seq_len and are >= 0), every recorded waveform index lies inside waveform_to_segment; a sequence table
+   entry without waveform is the parsers' TaborException (ENoWaveform) since the repair of
+   parse_aseq_program / parse_single_seq_program (it was an AttributeError: former known finding
+   zero_count_empties_table, former guard `pos` = counts >= 1) *)
+Theorem C16_no_crash : forall ff pf c tbl prog, good prog = true -> compile_with ff pf c tbl prog <> Err ECrash.
+Proof. exact compile_no_crash_good. Qed.
 Print Assumptions C16_no_crash.
 
-(* ... and the guard `pos` is needed: with a repetition count 0 a node can lose all its children in
-   flatten_and_balance and reaches the parser as a leaf without waveform (known finding zero_count_empties_table:
-   the real code raises AttributeError instead of a TaborException) *)
-Theorem C16_no_crash_zero_count_refuted :
-  exists c tbl prog, good prog = true /\ compile c tbl prog = Err ECrash.
-Proof. exists (ex_cfg 1 4), ex_tbl, ex_zero. exact zero_count_crashes. Qed.
-Print Assumptions C16_no_crash_zero_count_refuted.
+(* the same for the round-2 guard (counts >= 1, nodes without waveform have children; inner nodes may carry a waveform) *)
+Theorem C16_no_crash_pos : forall ff pf c tbl prog, pos prog = true -> compile_with ff pf c tbl prog <> Err ECrash.
+Proof. exact compile_no_crash. Qed.
+Print Assumptions C16_no_crash_pos.
+
+(* the former crash witness: a good program in which a repetition count 0 leaves a node without children is rejected
+   with the parsers' TaborException (regression witness of the repair; corpus/C16/zero_count_crash.json) *)
+Theorem C16_zero_count_rejected :
+  exists c tbl prog, good prog = true /\ pos prog = false /\ compile c tbl prog = Err ENoWaveform.
+Proof. exists (ex_cfg 1 4), ex_tbl, ex_zero. exact zero_count_rejected. Qed.
+Print Assumptions C16_zero_count_rejected.
 
 Theorem C16_no_crash_nonvacuous : pos ex_prog = true /\ good ex_prog = true.
 Proof. split; reflexivity. Qed.
@@ -197,3 +204,42 @@ Print Assumptions C16_plays_nonvacuous.
 Theorem C16_spec_cached_eq : forall c tbl prog, spec_cached c tbl prog = spec c tbl prog.
 Proof. exact spec_cached_eq. Qed.
 Print Assumptions C16_spec_cached_eq.
+
+(* (1c) the fuel of prepare from the INPUT alone.  R (Loop r ch) = max(1,|r|) * max(1, sum_{c in ch} R c) (the
+   repetition weight of the fully unrolled tree), prep_bound l = 1 + 2 * sum_{t in l} R t.  No step of
+   flatten_and_balance increases the total weight of its work list, so whatever it returns (for any fuel, any level
+   2) has a prepare-measure below prep_bound of what it was given *)
+Theorem C16_prep_measure_closed : forall n l ch1,
+  fab n 2 [] l = Ok ch1 -> (prep_measure [] ch1 < prep_bound l)%nat.
+Proof. exact prep_measure_closed. Qed.
+Print Assumptions C16_prep_measure_closed.
+
+(* ... so both hypotheses of C16_compile_fuel_explicit follow from two closed formulas of the source program *)
+Theorem C16_compile_fuel_closed : forall ff pf c tbl prog,
+  (fab_bound 2 (l_ch (root_of prog)) <= ff)%nat ->
+  (prep_bound (l_ch (root_of prog)) <= pf)%nat ->
+  compile_with ff pf c tbl prog <> Err EFuel.
+Proof. exact compile_fuel_closed. Qed.
+Print Assumptions C16_compile_fuel_closed.
+
+(* more fuel never changes a result other than the fuel error (every configuration, table, program) *)
+Theorem C16_compile_fuel_mono : forall ff pf c tbl prog r,
+  compile_with ff pf c tbl prog = r -> r <> Err EFuel ->
+  forall k1 k2, compile_with (ff + k1) (pf + k2) c tbl prog = r.
+Proof. exact compile_with_fuel_mono. Qed.
+Print Assumptions C16_compile_fuel_mono.
+
+(* within the two closed bounds the fixed fuel (4000, 4000) of `compile` — the function the correspondence check
+   evaluates — stands for unbounded loops: no fuel error, and the same result for every larger fuel *)
+Theorem C16_compile_fixed_fuel_stable : forall c tbl prog,
+  (fab_bound 2 (l_ch (root_of prog)) <= fab_fuel)%nat ->
+  (prep_bound (l_ch (root_of prog)) <= prep_fuel)%nat ->
+  compile c tbl prog <> Err EFuel /\
+  forall k1 k2, compile_with (fab_fuel + k1) (prep_fuel + k2) c tbl prog = compile c tbl prog.
+Proof. exact compile_fixed_fuel_stable. Qed.
+Print Assumptions C16_compile_fixed_fuel_stable.
+
+Theorem C16_compile_fuel_closed_nonvacuous :
+  (fab_bound 2 (l_ch (root_of ex_prog)) <= fab_fuel)%nat /\ (prep_bound (l_ch (root_of ex_prog)) <= prep_fuel)%nat.
+Proof. exact ex_fuel_closed. Qed.
+Print Assumptions C16_compile_fuel_closed_nonvacuous.
